@@ -96,4 +96,8 @@ def site(meta):
         if 0xf0 in pfx:
             s += '+lock'
     s += ' mod=%s' % ('reg' if modrm >= 0xc0 else 'mem')
+    # a segment override is part of the site: the paths that carry, render and re-parse it are separate from the plain form
+    # (ds/ss are named because they are canonical only where they change the default segment)
+    if set(pfx) & {0x26, 0x2e, 0x36, 0x3e, 0x64, 0x65}:
+        s += ' seg=ds' if 0x3e in pfx else ' seg=ss' if 0x36 in pfx else ' seg'
     return s
